@@ -3,3 +3,4 @@ import LPVerif.Lemmas.Core
 import LPVerif.Model.Prof
 import LPVerif.Driver.All
 import LPVerif.Props.C01
+import LPVerif.Props.C12
